@@ -186,7 +186,7 @@ class HarnessError(Exception):
     pass
 
 
-class Hang(Exception):
+class Hang(BaseException):
     pass
 
 
